@@ -158,6 +158,7 @@ struct Stats {
     window_slots_held_by_completed: u64,
     source_pending_returns: u64,
     quiescence_checks: u64,
+    early_exits_at_scope_drop: u64,
     tasks_cancelled: u64,
     max_window: usize,
 }
@@ -569,8 +570,11 @@ fn consumer(api: Api, w: usize, sh: &Sh) -> Pin<Box<dyn Future<Output = Outcome>
 fn should_be_done(st: &State, case: &Case) -> bool {
     let p = st.completable_prefix();
     match case.api {
-        Api::Stream | Api::Par => p == case.n,
-        Api::TryAll | Api::TryTrait => match case.first_err() {
+        Api::Stream => p == case.n,
+        // "first error": once every task up to and including the first failing one can complete, the join has an error
+        // to report (parallel_join's single-threaded form returns at the first error it sees, its spawning form when it
+        // reaches the failed task in spawn order) - it must not wait for later tasks, which may never finish
+        Api::Par | Api::TryAll | Api::TryTrait => match case.first_err() {
             Some(e) => p > e,
             None => p == case.n,
         },
@@ -765,6 +769,7 @@ fn report(rec: &mut Recorder, case: &Case, out: &RunOut, executor: &str) {
     rec.add("window_slots_held_by_completed", s.window_slots_held_by_completed);
     rec.add("source_pending_returns", s.source_pending_returns);
     rec.add("mt_quiescence_checks", s.quiescence_checks);
+    rec.add("mt_early_exits_at_scope_drop", s.early_exits_at_scope_drop);
     rec.add("tasks_cancelled_by_early_exit", s.tasks_cancelled);
     if case.api != Api::Par && case.n > 0 {
         rec.seen("max_window_vs_w", format!("{}of{}", s.max_window, case.w));
@@ -1812,7 +1817,19 @@ mod mt {
                         check_result(&mut st, &case, &outcome);
                         (true, None)
                     }
-                    Err(e) => (false, Some(if e.is_panic() { vlib::panic_message(&*e.into_panic()) } else { "consumer task cancelled".to_string() })),
+                    Err(e) => {
+                        let msg = if e.is_panic() { vlib::panic_message(&*e.into_panic()) } else { "consumer task cancelled".to_string() };
+                        // A fallible join that returns early drops its scope while tasks are still pending; async_scoped then
+                        // blocks in place, which tokio only allows on its multi-thread runtime. On this (current-thread, paused)
+                        // executor that panic therefore IS the early return: the join had its result and left. The value it was
+                        // about to return is checked by the runs on the real multi-thread runtime.
+                        if msg.contains("can call blocking only when running on the multi-threaded runtime") {
+                            lock(&sh).stats.early_exits_at_scope_drop += 1;
+                            (true, None)
+                        } else {
+                            (false, Some(msg))
+                        }
+                    }
                 }
             } else {
                 cons.abort();
@@ -1870,10 +1887,8 @@ mod mt {
                 continue;
             }
             let mut case = seeded_case(env.seed ^ 0x9, k, 2, 40);
-            if case.api != Api::Stream {
-                continue;
-            }
             case.idx = sidx;
+            rec.seen("mtq_apis", case.api.name());
             if case.src_gated {
                 rec.count("mtq_gated_source_cases");
             }
